@@ -134,3 +134,13 @@ Theorem C15_chrome_structure : forall tasks s,
   ok_chrome tasks s (chrome_events tasks s) = true.
 Proof. exact chrome_structure. Qed.
 Print Assumptions C15_chrome_structure.
+
+(* String arguments and return values (shown by default): the text get_argspec_string puts into the
+   `arguments` / `retval` member is one JSON string for EVERY payload string, and decodes to the spelled-out value. *)
+Theorem C15_json_args_valid : forall entry raw, json_string_ok (quoted (arg_json entry raw)) = true.
+Proof. exact json_args_valid. Qed.
+Print Assumptions C15_json_args_valid.
+
+Theorem C15_json_args_shown : forall entry raw, unescape (arg_json entry raw) = arg_shown entry raw.
+Proof. exact json_args_shown. Qed.
+Print Assumptions C15_json_args_shown.
